@@ -343,14 +343,18 @@ func (g *gen) object(ids []string, idx int) ObjectRecipe {
 			}
 		case 5:
 			if !g.o.NoRules && len(names) > 1 {
-				other := names[(i+1)%len(names)]
+				others := []string{names[(i+1)%len(names)]}
+				if len(names) > 2 && g.s.Choose("g.rule2", 2) == 1 {
+					// rule lists with several entries: which entry triggers depends on the input
+					others = append(others, names[(i+2)%len(names)])
+				}
 				switch g.s.Choose("g.rule", 4) {
 				case 0:
-					p.RequiredIf = []string{other}
+					p.RequiredIf = others
 				case 1:
-					p.RequiredIfNot = []string{other}
+					p.RequiredIfNot = others
 				case 2:
-					p.Conflicts = []string{other}
+					p.Conflicts = others
 				case 3:
 					p.Disabled = true
 				}
@@ -584,6 +588,9 @@ func (v *ValGen) Object(id string, extra map[string]any) map[string]any {
 		p := &o.Props[i]
 		for _, r := range p.RequiredIf {
 			if present[r] && !p.Disabled {
+				if !present[p.Name] && v.corruptHere() {
+					continue // leave the rule violated: the property stays absent although a trigger is set
+				}
 				present[p.Name] = true
 			}
 		}
